@@ -88,24 +88,66 @@ Proof. intros s H. pose proof (hexmacro_bound_cond_l s 0 ltac:(lia)). lia. Qed.
 (* ---- macro replay --------------------------------------------------------------------------------------------------------------------------- *)
 Lemma geom_nonneg c d : 0 <= c -> 0 <= geom c d.
 Proof. intro H. induction d; cbn [geom]; nia. Qed.
-Lemma fold_opt_sum (g : Z -> option Z) X : forall l a0 n, 0 <= X -> (forall i b, In i l -> g i = Some b -> 0 <= b <= X) ->
-  fold_left (fun acc i => match acc, g i with Some a, Some b => Some (a + b) | _, _ => None end) l (Some a0) = Some n -> a0 <= n <= a0 + zlen l * X.
+Definition astep_abort (g : Z -> Z * bool) (acc : Z * bool) (i : Z) : Z * bool :=
+  if snd acc then acc else let r := g i in (fst acc + fst r, snd r).
+Lemma astep_abort_true g a i : astep_abort g (a, true) i = (a, true). Proof. reflexivity. Qed.
+Lemma astep_abort_false g a i : astep_abort g (a, false) i = (a + fst (g i), snd (g i)). Proof. reflexivity. Qed.
+Lemma fold_abort_sticky (g : Z -> Z * bool) : forall l a, fold_left (astep_abort g) l (a, true) = (a, true).
+Proof. induction l as [|i l IH]; intro a; cbn [fold_left]; [reflexivity|]. rewrite astep_abort_true. apply IH. Qed.
+Lemma fold_abort_sum (g : Z -> Z * bool) X : forall l a0 b0, 0 <= X -> (forall i, In i l -> 0 <= fst (g i) <= X) ->
+  a0 <= fst (fold_left (astep_abort g) l (a0, b0)) <= a0 + zlen l * X.
 Proof.
-  induction l as [|i l IH]; intros a0 n HX Hg H; cbn [fold_left] in H.
-  - inversion H. change (zlen (@nil Z)) with 0. lia.
-  - destruct (g i) as [b|] eqn:E.
-    + specialize (IH (a0 + b) n HX (fun j c Hin => Hg j c (or_intror Hin)) H). destruct (Hg i b (or_introl eq_refl) E). rewrite zlen_cons'. pose proof (zlen_nonneg l). nia.
-    + exfalso. clear -H. induction l as [|j l IHl]; cbn [fold_left] in H; [discriminate|]. apply IHl. exact H.
+  induction l as [|i l IH]; intros a0 b0 HX Hg; cbn [fold_left].
+  - cbn [fst]. change (zlen (@nil Z)) with 0. lia.
+  - rewrite zlen_cons'. pose proof (zlen_nonneg l). destruct b0.
+    + rewrite astep_abort_true, fold_abort_sticky. cbn [fst]. nia.
+    + rewrite astep_abort_false. destruct (Hg i (or_introl eq_refl)).
+      pose proof (IH (a0 + fst (g i)) (snd (g i)) HX (fun j Hin => Hg j (or_intror Hin))). nia.
 Qed.
-Lemma macro_replay_bound_l : forall fuel ms id B c n, 0 <= B -> 0 <= c -> macros_ok ms B c -> macro_chars fuel ms id = Some n -> 0 <= n <= B * geom c fuel.
+Lemma macro_chars_S k ms id body : lookup id ms = Some body ->
+  macro_chars (S k) ms id = fold_left (astep_abort (macro_chars k ms)) (find_invokes body) (zlen body, false).
+Proof. intro E. cbn [macro_chars]. rewrite E. reflexivity. Qed.
+(* characters replayed by ONE invocation, whatever the macro table holds (recursive or not): the nesting counter of the code bounds the depth *)
+Lemma macro_replay_bound_l : forall fuel ms id B c, 0 <= B -> 0 <= c -> macros_ok ms B c -> 0 <= fst (macro_chars fuel ms id) <= B * geom c fuel.
 Proof.
-  induction fuel as [|k IH]; intros ms id B c n HB Hc Hok H; cbn [macro_chars] in H.
-  - destruct (lookup id ms); [discriminate|]. inversion H. cbn [geom]. lia.
-  - destruct (lookup id ms) as [body|] eqn:EL; [|inversion H; pose proof (geom_nonneg c (S k) Hc); nia].
-    destruct (Hok id body EL) as [L1 L2]. pose proof (geom_nonneg c k Hc) as HG.
-    assert (HX : 0 <= B * geom c k) by nia.
-    pose proof (fold_opt_sum (macro_chars k ms) (B * geom c k) (find_invokes body) (zlen body) n HX (fun i b _ E => IH ms i B c b HB Hc Hok E) H) as HS.
-    pose proof (zlen_nonneg body). pose proof (zlen_nonneg (find_invokes body)). cbn [geom]. nia.
+  induction fuel as [|k IH]; intros ms id B c HB Hc Hok.
+  - cbn [macro_chars]. destruct (lookup id ms); cbn [fst geom]; lia.
+  - destruct (lookup id ms) as [body|] eqn:EL.
+    + rewrite (macro_chars_S k ms id body EL). destruct (Hok id body EL) as [L1 L2]. pose proof (geom_nonneg c k Hc) as HG.
+      assert (HX : 0 <= B * geom c k) by nia.
+      pose proof (fold_abort_sum (macro_chars k ms) (B * geom c k) (find_invokes body) (zlen body) false HX (fun i _ => IH ms i B c HB Hc Hok)) as HS.
+      pose proof (zlen_nonneg body). pose proof (zlen_nonneg (find_invokes body)). cbn [geom]. nia.
+    + cbn [macro_chars]. rewrite EL. cbn [fst]. pose proof (geom_nonneg c (S k) Hc). nia.
+Qed.
+(* a macro that invokes only itself: the first invocation inside the body goes down to the limit and abandons the chain, nothing after it
+   is replayed: at most one body per nesting level *)
+Lemma macro_self_aborts : forall body r k, find_invokes body = 1 :: r -> snd (macro_chars k [(1, body)] 1) = true.
+Proof.
+  intros body r k E. induction k as [|k IH]; [reflexivity|].
+  rewrite (macro_chars_S k [(1, body)] 1 body eq_refl), E. cbn [fold_left]. rewrite astep_abort_false.
+  destruct (macro_chars k [(1, body)] 1) as [x b]. cbn [snd] in IH. subst b. cbn [fst snd]. rewrite fold_abort_sticky. reflexivity.
+Qed.
+Lemma macro_self_bound_l : forall body n, (forall i, In i (find_invokes body) -> i = 1) -> fst (macro_chars n [(1, body)] 1) <= Z.of_nat n * zlen body.
+Proof.
+  intros body n H. pose proof (zlen_nonneg body) as HB. induction n as [|k IH]; [cbn; lia|].
+  rewrite (macro_chars_S k [(1, body)] 1 body eq_refl). destruct (find_invokes body) as [|i r] eqn:E.
+  - cbn [fold_left fst]. nia.
+  - assert (i = 1) by (apply H; left; reflexivity). subst i.
+    cbn [fold_left]. rewrite astep_abort_false. pose proof (macro_self_aborts body r k E) as HA.
+    destruct (macro_chars k [(1, body)] 1) as [x b]. cbn [fst snd] in *. subst b. rewrite fold_abort_sticky. cbn [fst]. nia.
+Qed.
+(* the limit only cuts: a nesting that the code before the fix replayed to the end within [fuel] levels is replayed the same way *)
+Lemma fold_opt_none (g : Z -> option Z) : forall l, fold_left (fun acc i => match acc, g i with Some a, Some b => Some (a + b) | _, _ => None end) l None = None.
+Proof. induction l as [|i l IH]; cbn [fold_left]; [reflexivity|exact IH]. Qed.
+Lemma macro_chars_conservative_l : forall fuel ms id n, macro_chars_nolimit fuel ms id = Some n -> macro_chars fuel ms id = (n, false).
+Proof.
+  induction fuel as [|k IH]; intros ms id n H; cbn [macro_chars_nolimit macro_chars] in *.
+  - destruct (lookup id ms); [discriminate|]. inversion H. reflexivity.
+  - destruct (lookup id ms) as [body|]; [|inversion H; reflexivity].
+    fold (astep_abort (macro_chars k ms)). revert H. generalize (zlen body) as a. induction (find_invokes body) as [|i l IHl]; intros a H; cbn [fold_left] in *.
+    + inversion H. reflexivity.
+    + destruct (macro_chars_nolimit k ms i) as [b|] eqn:E; [|rewrite fold_opt_none in H; discriminate].
+      rewrite astep_abort_false, (IH ms i b E). cbn [fst snd]. apply IHl. exact H.
 Qed.
 (* an invocation needs at least `ESC [`: a body holds at most half as many invocations as characters *)
 Lemma find_invokes_len : forall n body, (length body <= n)%nat -> 2 * zlen (find_invokes body) <= zlen body.
@@ -146,4 +188,11 @@ Proof.
   destruct (k =? id).
   - inversion H. subst. split; lia.
   - destruct (IH id body H). fold (macros_maxlen ms). fold (macros_maxinv ms). split; lia.
+Qed.
+(* no hypothesis at all: the executable B and c of a table *)
+Lemma macro_replay_total_l : forall fuel ms id, 0 <= fst (macro_chars fuel ms id) <= macros_maxlen ms * geom (macros_maxinv ms) fuel.
+Proof.
+  intros fuel ms id. apply macro_replay_bound_l; [| |apply macros_max_ok].
+  - induction ms as [|kv ms IH]; cbn [macros_maxlen fold_right]; [lia|]. fold (macros_maxlen ms). lia.
+  - induction ms as [|kv ms IH]; cbn [macros_maxinv fold_right]; [lia|]. fold (macros_maxinv ms). lia.
 Qed.
